@@ -144,6 +144,18 @@ def replay(r):
             bad = cmp(yb, (na, B0), lambda i: (X0[i[1]:i[1] + 1], [a[i[1]:i[1] + 1] for a in a0]), "before") or cmp(ya, (na, B0), after, "after")
         elif k == "ablate":
             n, s, e, seed = r["n"], r["start"], r["end"], r.get("seed", 3)
+            if r.get("history"):
+                from tangermeme.predict import predict as _pred
+                seen = []
+
+                def func_rs(model_, X_, args=None, random_state=None, **kw_):
+                    seen.append(random_state)
+                    return _pred(model_, X_, args=args, **kw_)
+                s0 = r.get("seed0", 0) if r.get("seed0", 0) != seed else seed + 1
+                ab.ablate(m, X, s, e, n=n, random_state=s0, func=func_rs, **kw)
+                ab.ablate(m, X, s, e, n=n, random_state=seed, func=func_rs, **kw)
+                if seen != [s0, s0, seed, seed]:
+                    return True, "ablate called twice with seeds %s then %s handed func the seeds %s" % (s0, seed, seen)
             yb, ya = ab.ablate(m, X, s, e, n=n, random_state=seed, **kw)
             Xp = ersatz.shuffle(X, start=s, end=(e if e >= 0 else L + 1 + e), n=n, random_state=seed)
             bad = cmp(yb, (B,), lambda i: (X[i[0]:i[0] + 1], [a[i[0]:i[0] + 1] for a in args]), "before") or \
@@ -294,6 +306,24 @@ def worker(cfg):
                         eff_end = end
                     base["start"] = lambda m: core.model_value(m, start)
                     base["end"] = lambda m: core.model_value(m, end)
+                    if cfg.get("history"):
+                        # call history: an earlier call with a func that takes random_state (e.g. deep_lift_shap) and another seed;
+                        # every call must hand *its own* seed to func, and a later call with func=predict must be unaffected
+                        seen = []
+                        seed0 = core.Int("seed0")
+                        base["seed0"] = lambda m: core.model_value(m, seed0)
+                        pred = mods["predict"].predict
+
+                        def func_rs(model_, X_, args=None, random_state=None, **kw_):
+                            seen.append(random_state)
+                            return pred(model_, X_, args=args, **kw_)
+                        mods["ablate"].ablate(model, X, start, end, n=n, random_state=seed0, func=func_rs, **kw)
+                        mods["ablate"].ablate(model, X, start, end, n=n, random_state=seed, func=func_rs, **kw)
+                        okh = len(seen) == 4 and all(v is not None for v in seen)
+                        mh = ctx.prove(s_and(okh, *([seen[0] == seed0, seen[1] == seed0, seen[2] == seed, seen[3] == seed] if okh else [])), "func receives the seed of its own call")
+                        if mh is not None:
+                            out["violations"].append(C.violation("ablate:state-leaks-between-calls", "ablate: func does not receive the random_state of the call it belongs to (state leaks between calls)", dict(rp(mh), history=True), replay))
+                            return "returned"
                     yb, ya = mods["ablate"].ablate(model, X, start, end, n=n, random_state=seed, **kw)
                     mdl = ctx.model() if ctx.check() == z3.sat else None
                     sv, ev = core.model_value(mdl, start), core.model_value(mdl, eff_end)
@@ -387,6 +417,7 @@ def configs(tier):
             if n_args == 0:
                 cf.append(dict(kind="space", A=2, B=1, L=5 if q else 6, ws=[1, 1], S=2, start="none", out=kind, n_out=n_out, n_args=0))
                 cf.append(dict(kind="ablate", A=2, B=2, L=3, n=2, end_mode="neg", out=kind, n_out=n_out, n_args=0))
+                cf.append(dict(kind="ablate", A=2, B=1, L=3, n=2, history=True, out=kind, n_out=n_out, n_args=0))
                 cf.append(dict(kind="marginalize_annotations", A=2, B=2, L=3, B0=1, L0=4, n_ann=2, start="sym", out=kind, n_out=n_out, n_args=0))
             for na in (1, 3):
                 cf.append(dict(kind="marginalize_annotations", A=2, B=2, L=3, B0=2 if na == 1 else 1, L0=3, n_ann=na, out=kind, n_out=n_out, n_args=n_args))
